@@ -41,6 +41,19 @@ class AnchorLost(Exception):
 # --------------------------------------------------------------------------------------------
 # Rust-aware masking: comments and literal contents become spaces so braces/regexes are safe.
 # --------------------------------------------------------------------------------------------
+F64_TOTAL = [
+    "pub mod f64_total__ {",
+    "    use vstd::prelude::*;",
+    "    pub broadcast axiom fn axiom_f64_sub_total(a: f64, b: f64) ensures #[trigger] vstd::std_specs::ops::SubSpec::sub_req(a, b);",
+    "    pub broadcast axiom fn axiom_f64_add_total(a: f64, b: f64) ensures #[trigger] vstd::std_specs::ops::AddSpec::add_req(a, b);",
+    "    pub broadcast axiom fn axiom_f64_mul_total(a: f64, b: f64) ensures #[trigger] vstd::std_specs::ops::MulSpec::mul_req(a, b);",
+    "    pub broadcast axiom fn axiom_f64_div_total(a: f64, b: f64) ensures #[trigger] vstd::std_specs::ops::DivSpec::div_req(a, b);",
+    "    pub broadcast group f64_arith_total { axiom_f64_sub_total, axiom_f64_add_total, axiom_f64_mul_total, axiom_f64_div_total }",
+    "}",
+    "broadcast use f64_total__::f64_arith_total;",
+]
+
+
 def mask_rust(src: str) -> str:
     out = list(src)
     n = len(src)
@@ -1142,6 +1155,15 @@ def generate(unit, template_path, canary=False, extra_fns=(), drop_hints=()):
                     g.rewrites.append({"rule": "R0", "where": f"{segs[0]}::{segs[1]}", "before": "struct declared as a projection in the template", "after": "fields checked against the real struct: " + segs[2]})
                 g.lines.append(ln)
                 g.linemap.append({"kind": "template", "file": trel, "line": start + k})
+                if ln.strip() == "verus! {" and not header_done:
+                    # R12 (every unit): primitive f64 arithmetic (`a - b`, `a * b` on f64 values) carries a precondition in vstd that
+                    # nothing can prove; in Rust it never panics. Without this, a body that STARTS doing float arithmetic would fail a
+                    # "safety" obligation (a false C08 alarm). ASSUMED: f64 + - * / are total; their results stay uninterpreted.
+                    header_done = True
+                    for hl in F64_TOTAL:
+                        g.lines.append(hl)
+                        g.linemap.append({"kind": "template", "file": "vx/extract.py (R12: f64 arithmetic is total)", "line": 0})
+                    g.rewrites.append({"rule": "R12", "where": unit, "before": "(every unit)", "after": "axioms: f64 + - * / never panic (vstd gives them an unprovable precondition); results uninterpreted"})
         elif b[0] == "item":
             spec = b[1]
             src = get_src(spec["file"])
